@@ -723,6 +723,10 @@ def _module_functions(R):
 # ---------------------------------------------------------------------------- reader
 def _reader_rules(R, C, info):
     where = R.fi.fq
+    import ast as _ast
+    # a cursor advanced inside nested functions (`nonlocal offset` in a local read helper) is not followed by the walker
+    # (a closure sees the variables as they were when it was created): offsets that do not add up are then not decided
+    nonlocal_cursor = any(isinstance(n, _ast.Nonlocal) for n in _ast.walk(R.fi.node))
     ops = R.ops
     freads = [o for o in ops if o.kind == "fread"]
     mmaps = [o for o in ops if o.kind == "mmap"]
@@ -872,7 +876,7 @@ def _reader_rules(R, C, info):
         # offset
         lo = linear(o.offset, rcanon)
         C.ok(lin_eq(lo, expect_off), "R-C10-b", w, "cursor at %s = bytes consumed so far" % role, "offset %s" % lin_show(expect_off),
-             "field is read at offset %s but %s bytes precede it" % (lin_show(lo), lin_show(expect_off)),
+             "field is read at offset %s but %s bytes precede it" % (lin_show(lo), lin_show(expect_off)), undecided=nonlocal_cursor,
              witness={"field": role})
         # advance
         if kind in ("<B", "<L"):
